@@ -1,4 +1,5 @@
 import SJ.Props.C05
+import SJ.Props.C09Readers
 #print axioms SJ.Props.C05.c05_escape_table
 #print axioms SJ.Props.C05.c05_escape_spec
 #print axioms SJ.Props.C05.c05_escape_buffers_utf8_cut
@@ -12,3 +13,5 @@ import SJ.Props.C05
 #print axioms SJ.Props.C05.c05_roundtrip
 #print axioms SJ.Props.C05.c05_roundtrip_written
 #print axioms SJ.Props.C05.c05_str_source_utf8
+#print axioms SJ.Props.C05.c05_borrowed
+#print axioms SJ.Props.C05.c05_borrowed_subslice
